@@ -1,5 +1,6 @@
 #!/usr/bin/env python3
-'''Applies every seeded change under /verif/seeded/ to /repo (one at a time, always undone), runs the quick check of
+'''Applies every seeded change under /verif/seeded/ to a scratch worktree of /repo's HEAD (SEED_REPO, default
+/tmp/repo-seeds, created and removed here; the checks are pointed at it through VERIF_REPO), one at a time, runs the quick check of
 the property it breaks (and optionally other checks), and writes /verif/seeded/RESULTS.json + RESULTS.md.
 Usage: tools/run_seeds.py [name ...]'''
 import json, os, subprocess, sys, time
@@ -9,13 +10,16 @@ try:
     results = json.load(open(f'{HOME}/seeded/RESULTS.json'))
 except Exception:
     results = {}
-assert subprocess.run(['git', '-C', '/repo', 'status', '--porcelain', '--untracked-files=no'], capture_output=True, text=True).stdout.strip() == '', '/repo not clean'
+REPO = os.environ.get('SEED_REPO', '/tmp/repo-seeds')
+subprocess.run(['git', '-C', '/repo', 'worktree', 'remove', '--force', REPO], capture_output=True)
+assert subprocess.run(['git', '-C', '/repo', 'worktree', 'add', '-q', '--detach', REPO, 'HEAD']).returncode == 0
+ENV = dict(os.environ, VERIF_REPO=REPO, VERIF_EVIDENCE_DIR='/tmp/seed-evidence', VERIF_REPLAY_DIR='/tmp/seed-replays')
 for n in names:
     d = f'{HOME}/seeded/{n}'
     meta = json.load(open(f'{d}/meta.json')) if os.path.exists(f'{d}/meta.json') else {}
     pid = meta.get('property') or n.split('-')[0][:3]
     checks = meta.get('also_checked_by', []) and [pid] + meta['also_checked_by'] or [pid]
-    r = subprocess.run(['git', '-C', '/repo', 'apply', f'{d}/patch.diff'], capture_output=True, text=True)
+    r = subprocess.run(['git', '-C', REPO, 'apply', f'{d}/patch.diff'], capture_output=True, text=True)
     if r.returncode:
         results[n] = {'property': pid, 'applies': False, 'error': r.stderr[-300:]}
         print(n, 'PATCH DOES NOT APPLY')
@@ -24,16 +28,17 @@ for n in names:
     try:
         for c in checks:
             t0 = time.time()
-            p = subprocess.run([f'{HOME}/vf', 'check', c, '--tier', 'quick'], capture_output=True, text=True, cwd=HOME, timeout=3000)
+            p = subprocess.run([f'{HOME}/vf', 'check', c, '--tier', 'quick'], capture_output=True, text=True, cwd=HOME, timeout=3000, env=ENV)
             viol = [l for l in p.stdout.splitlines() if l.startswith('VIOLATION')]
             detail = [l.strip() for l in p.stdout.splitlines() if l.startswith('  ')][:1]
             res['checks'][c] = {'exit': p.returncode, 'violations': len(viol), 'first': (detail[0][:300] if detail else ''),
                                 'wall_s': round(time.time() - t0)}
             print(n, c, 'exit', p.returncode, 'violations', len(viol))
     finally:
-        subprocess.run(['git', '-C', '/repo', 'checkout', '--', '.'])
+        subprocess.run(['git', '-C', REPO, 'checkout', '--', '.'])
     results[n] = res
     json.dump(results, open(f'{HOME}/seeded/RESULTS.json', 'w'), indent=1)
+subprocess.run(['git', '-C', '/repo', 'worktree', 'remove', '--force', REPO], capture_output=True)
 lines = ['| seeded change | property | caught by (quick check, exit 1 + VIOLATION) | first report |', '|---|---|---|---|']
 for n in sorted(results):
     r = results[n]
